@@ -9,17 +9,20 @@ Decides:
  M matcher              matches_arg decides on the name (and the attached-value bit) only: words never match.
  C command scope       a matched command's scope runs from its name to the END of the enclosing scope (not to the first
                         hole left by an outer named item written among the command's own items): shared with C08.
+ T separator position   the `--` marker that is pre-consumed is the item at the position it was tokenized into (one argv word can
+                        expand into several items, so a word index would make the outcome depend on which named spellings
+                        precede `--`): shared with C09.
  P positionals skip     take_positional_word considers Word / PosWord only and skips every named item.
 Does not decide: invariance of the outcome under all permutations (value-level)."""
 from core import *
 from dataflow import *
 from cfgq import *
-import consumers, c07, c08
+import consumers, c07, c08, c09
 
 LEVEL = 'other'
 EXPLANATION = __doc__
 ASSUMPTIONS = []
-FLOORS = {'S.search': 18, 'I.index-opaque': 2, 'M.matcher': 8, 'C.command-scope': 1}
+FLOORS = {'S.search': 18, 'I.index-opaque': 2, 'M.matcher': 8, 'C.command-scope': 1, 'T.separator': 2}
 
 def run(ctx):
     cfgs = ['none', 'all']
@@ -29,6 +32,7 @@ def run(ctx):
         consumers.consumers(ctx, cfg, fs, 'S.search')
         consumers.accept_sets(ctx, cfg, fs, 'M.matcher')
         c07.ledger_only(ctx, cfg, fs, 'I.index-opaque')
+        c08.keep_only(ctx, lambda: c09.tokenizer(ctx, cfg, fs), lambda o: 'marker-' in o.key, 'T.separator')
         c08.keep_only(ctx, lambda: c08.matched(ctx, cfg, fs), lambda o: 'scope-from-name-to-end' in o.key, 'C.command-scope')
         for nm in ('take_flag', 'take_arg'):
             b = ctx.look(fs.body(consumers.CONSUMERS[nm][0]))
